@@ -344,24 +344,32 @@ Proof.
     + eapply R_trans; [apply He|]. eapply R_trans; [apply R_add_alloc|apply R_add_excess].
 Qed.
 
+Lemma allR_read_str_slow : forall fx n b w s, rest s = b :: w -> allR s (read_str_slow fx n (b :: w) s).
+Proof.
+  intros fx n b w s E. unfold read_str_slow.
+  assert (Hs : forall k d, R s (set_rest s (skipn k (b :: w)) (err s) d)).
+  { intros k d. apply R_set_rest_same. rewrite E. apply len_skipn. }
+  assert (He : forall e d, R s (set_rest s [] (merge (err s) e) d)).
+  { intros e d. apply R_set_rest. cbn. lia. }
+  destruct (str_scan _ false _ _ _); try leafA.
+  destruct ((off <? len (b :: w)) || _); [cbn [allR]; apply Hs|].
+  destruct (fx_str fx); [cbn [allR]; eapply R_trans; [apply He|apply R_add_excess]|].
+  destruct (wrap_int (n0 * 3) <? 0)%Z; [cbn [allR]; split; [apply R_refl|eapply R_trans; [apply He|apply R_add_excess]]|].
+  destruct (max_alloc <? _)%N; cbn [allR].
+  + split; [apply R_refl|eapply R_trans; [apply He|apply R_add_excess]].
+  + eapply R_trans; [apply He|]. eapply R_trans; [apply R_add_excess|apply R_add_alloc].
+Qed.
+
 Lemma allR_read_str : forall fx n s, allR s (read_str fx n s).
 Proof.
   intros fx n s. unfold read_str. destruct (n =? 0)%Z; [leafA|].
   destruct (rest s) as [|b w] eqn:E; [leafA|].
   assert (Hs : forall k d, R s (set_rest s (skipn k (b :: w)) (err s) d)).
   { intros k d. apply R_set_rest_same. rewrite E. apply len_skipn. }
-  assert (He : forall e d, R s (set_rest s [] (merge (err s) e) d)).
-  { intros e d. apply R_set_rest. cbn. lia. }
-  destruct (wrap_int (n * 3) <=? Z.of_nat (len (b :: w)))%Z.
-  - destruct (str_scan _ true _ _ _); try leafA.
-    destruct (len (b :: w) <? off); [leafA|]. cbn [allR]. apply Hs.
-  - destruct (str_scan _ false _ _ _); try leafA.
-    destruct ((off <? len (b :: w)) || _); [cbn [allR]; apply Hs|].
-    destruct (fx_str fx); [cbn [allR]; eapply R_trans; [apply He|apply R_add_excess]|].
-    destruct (wrap_int (n0 * 3) <? 0)%Z; [cbn [allR]; split; [apply R_refl|eapply R_trans; [apply He|apply R_add_excess]]|].
-    destruct (max_alloc <? _)%N; cbn [allR].
-    + split; [apply R_refl|eapply R_trans; [apply He|apply R_add_excess]].
-    + eapply R_trans; [apply He|]. eapply R_trans; [apply R_add_excess|apply R_add_alloc].
+  destruct (wrap_int (n * 3) <=? Z.of_nat (len (b :: w)))%Z; [|apply allR_read_str_slow; exact E].
+  destruct (str_scan _ true _ _ _); try leafA.
+  - destruct (len (b :: w) <? off); [leafA|]. cbn [allR]. apply Hs.
+  - cbn [allR]. split; [apply R_refl|apply allR_read_str_slow; exact E].
 Qed.
 
 Section Mono.
@@ -417,22 +425,23 @@ Ltac stepB :=
   | |- allR ?s0 (read_float _ _ ?x) => apply (allR_weaken _ _ s0 x); [solveR|apply allR_read_float]
   | |- allR ?s0 (parse_force _ _ _ ?x) => apply (allR_weaken _ _ s0 x); [solveR|apply allR_parse_force]
   | |- allR ?s0 (parse_soft _ _ _ ?x) => apply (allR_weaken _ _ s0 x); [solveR|apply allR_parse_soft]
-  | H : forall r s, allR s (convert _ r ?e s) |- allR ?s0 (convert _ _ ?e ?x) =>
+  | H : forall r s, allR s (convert _ _ r ?e s) |- allR ?s0 (convert _ _ _ ?e ?x) =>
       apply (allR_weaken _ _ s0 x); [solveR|apply H]
   | _ => stepA
   end.
 Ltac solveB := repeat stepB.
 
-Lemma allR_convert : forall dest r s, allR s (convert orc r dest s).
+Lemma allR_convert : forall dest r s, allR s (convert orc fx r dest s).
 Proof.
   induction dest; intros r s; destruct r; cbn [convert]; solveB.
 Qed.
 
-Lemma allR_read_reference : forall dest s, allR s (read_reference orc dest s).
+Lemma allR_read_reference : forall dest s, allR s (read_reference orc fx dest s).
 Proof.
   intros dest s. unfold read_reference. open_prims.
   destruct ((z <? 0)%Z || _); [leafA|].
   destruct (nth_error _ _); [|leafA].
+  match goal with |- allR _ (if ?c then _ else _) => destruct c end; [leafA|].
   apply allR_bnd; [apply (allR_weaken _ _ s s0); [solveR|apply allR_convert]|].
   intros a x. destruct a; leafA.
 Qed.
@@ -478,7 +487,7 @@ Ltac stepC :=
   match goal with
   | |- allR ?s0 (rv _ ?x) => apply (allR_weaken _ _ s0 x); [solveR|apply Hrv]
   | |- allR ?s0 (rt _ _ ?x) => apply (allR_weaken _ _ s0 x); [solveR|apply Hrt]
-  | |- allR ?s0 (read_reference _ _ ?x) => apply (allR_weaken _ _ s0 x); [solveR|apply allR_read_reference]
+  | |- allR ?s0 (read_reference _ _ _ ?x) => apply (allR_weaken _ _ s0 x); [solveR|apply allR_read_reference]
   | |- allR ?s0 (counted _ _ _ _ _ ?x) => apply (allR_weaken _ _ s0 x); [solveR|apply allR_counted]
   | |- allR ?s0 (loop _ _ _ _ _ ?x) => apply (allR_weaken _ _ s0 x); [solveR|apply allR_loop; intros ?]
   | |- allR ?s0 (over_names _ _ _ _ _ ?x) => apply (allR_weaken _ _ s0 x); [solveR|apply allR_over_names; intros ? ?]
@@ -597,7 +606,7 @@ Lemma allR_dec_map : forall ks vs tag s, allR s (dec_map orc registry fx rv rt l
 Proof. intros ks vs tag s. unfold dec_map. solveE; destruct ks; solveE. Qed.
 Lemma allR_dec_struct : forall nm f tag s, allR s (dec_struct orc registry fx rv rt lf nm f tag s).
 Proof. intros nm f tag s. unfold dec_struct. solveE. Qed.
-Lemma allR_dec_ptr : forall e tag s, allR s (dec_ptr orc rt e tag s).
+Lemma allR_dec_ptr : forall e tag s, allR s (dec_ptr orc fx rt e tag s).
 Proof. intros e tag s. unfold dec_ptr. solveE. destruct (ptr_core e). solveE. Qed.
 
 Lemma allR_dec_tag_body : forall sh tag s, allR s (dec_tag_body orc registry fx rv rt lf sh tag s).
